@@ -2,6 +2,7 @@ package date_j5t
 
 import (
 	"fmt"
+	"math"
 	"strconv"
 	"strings"
 	"time"
@@ -63,6 +64,19 @@ func DateFromString(data string) (*Date, error) {
 
 	day, err := strconv.Atoi(parts[2])
 	if err != nil {
+		return nil, fmt.Errorf("Invalid date string: %s", data)
+	}
+
+	if year < math.MinInt32 || year > math.MaxInt32 {
+		return nil, fmt.Errorf("Invalid date string: %s", data)
+	}
+
+	// time.Date normalises out-of-range values (month 13, February 30, ...), a
+	// real calendar date comes back unchanged.
+	if month < 1 || month > 12 || day < 1 || day > 31 {
+		return nil, fmt.Errorf("Invalid date string: %s", data)
+	}
+	if tt := time.Date(year, time.Month(month), day, 0, 0, 0, 0, time.UTC); tt.Day() != day {
 		return nil, fmt.Errorf("Invalid date string: %s", data)
 	}
 
